@@ -19,8 +19,12 @@ Clause 1 (static).  For every function / lambda of a generated module the view o
   (and the function's own implicit globals) to a function.  The property demands that every name CPython
   makes free is reported, and that nothing local / unrelated is.  Names a function itself declares
   nonlocal are compared through `nonlocals` (the analysis keeps them in `bound`).
-  Comprehension targets and except-clause names are removed from both sides (the property excepts them;
-  the generator draws them from separate pools so nothing else is hidden).
+  read           names loaded by the function's own code (is_referenced(); AST for names that are also
+                 comprehension targets)                                   <= simple(AB.read)
+  Comprehension targets that occur nowhere else in the function and except-clause names are removed from
+  both sides (the property excepts them).  A comprehension target that is also mentioned outside the
+  comprehension's scope - in particular in the comprehension's own FIRST iterable, which is evaluated in
+  the enclosing scope: `x = [x + 1 for x in x]`, `sum(k for k in range(k))` - stays compared.
 
 Clause 2 (dynamic).  progen programs (skeletons + seeded random) are run from an instrumented copy, for
 decision vectors from harness.adaptive_vectors.  Every simple statement inside a function is wrapped in
@@ -133,13 +137,90 @@ def stored_names(target):
   return set(n.id for n in ast.walk(target) if isinstance(n, ast.Name) and isinstance(n.ctx, ast.Store))
 
 
+def comp_targets(node):
+  out = set()
+  for g in node.generators:
+    out |= stored_names(g.target)
+  return out
+
+
+def unshadowed(fn):
+  """(names, loads): the simple names that occur in fn's own region at a place where no comprehension
+  target of that name is in scope, in any role / as a load.  The first iterable of a comprehension is
+  evaluated in the enclosing scope: `[x + 1 for x in x]` reads the enclosing x once (the iterable); every
+  other mention of x belongs to the comprehension."""
+  names, loads = set(param_names(fn)) if getattr(fn, 'args', None) is not None else set(), set()
+
+  def visit(n, shadow):
+    if n is None:
+      return
+    if isinstance(n, list):
+      for m in n:
+        visit(m, shadow)
+    elif isinstance(n, ast.Name):
+      if n.id not in shadow:
+        names.add(n.id)
+        if isinstance(n.ctx, ast.Load):
+          loads.add(n.id)
+    elif isinstance(n, COMPS):
+      gens = n.generators
+      visit(gens[0].iter, shadow)
+      inner = shadow | comp_targets(n)
+      visit(gens[0].target, inner)
+      visit(gens[0].ifs, inner)
+      for g in gens[1:]:
+        visit(g.iter, inner)
+        visit(g.target, inner)
+        visit(g.ifs, inner)
+      if isinstance(n, ast.DictComp):
+        visit(n.key, inner)
+        visit(n.value, inner)
+      else:
+        visit(n.elt, inner)
+    elif isinstance(n, FUNCS):
+      a = n.args
+      visit(a.defaults, shadow)
+      visit(a.kw_defaults, shadow)
+      for q in a.posonlyargs + a.args + a.kwonlyargs + [a.vararg, a.kwarg]:
+        if q is not None:
+          visit(q.annotation, shadow)
+      if not isinstance(n, ast.Lambda):
+        visit(n.decorator_list, shadow)
+        visit(n.returns, shadow)
+        names.add(n.name)
+    elif isinstance(n, ast.ClassDef):
+      visit(n.decorator_list, shadow)
+      visit(n.bases, shadow)
+      visit([k.value for k in n.keywords], shadow)
+      names.add(n.name)
+    elif isinstance(n, (ast.Global, ast.Nonlocal)):
+      names.update(n.names)
+    elif isinstance(n, ast.alias):
+      names.add((n.asname or n.name).split('.')[0])
+    else:
+      visit(list(ast.iter_child_nodes(n)), shadow)
+  visit(fn.body, frozenset())
+  return names, loads
+
+
 def excepted_names(fn):
+  """Comprehension targets that occur nowhere else in the function, and except-clause names."""
   out = set()
   for n in own_region(fn):
     if isinstance(n, ast.comprehension):
       out |= stored_names(n.target)
-    elif isinstance(n, ast.ExceptHandler) and n.name:
+  out -= unshadowed(fn)[0]
+  for n in own_region(fn):
+    if isinstance(n, ast.ExceptHandler) and n.name:
       out.add(n.name)
+  return out
+
+
+def all_comp_targets(fn):
+  out = set()
+  for n in own_region(fn):
+    if isinstance(n, ast.comprehension):
+      out |= stored_names(n.target)
   return out
 
 
@@ -220,6 +301,7 @@ def compare_function(n, tab, parents):
   a_body = simple(BODY.bound) - a_glob - a_nl - exc
   a_par = simple(ARGS.params.keys())
   a_free = simple(AB.read - AB.bound) - exc
+  a_read = simple(AB.read)
   syms = tab.get_symbols()
   s_par = set(s.get_name() for s in syms if s.is_parameter())
   s_loc = set(s.get_name() for s in syms if s.is_local()) - exc
@@ -230,6 +312,11 @@ def compare_function(n, tab, parents):
   s_impl = set(s.get_name() for s in syms
                if s.is_global() and not s.is_declared_global() and s.is_referenced())
   lower = ((s_free - s_nl) | s_impl) - exc
+  # names the function's own code loads: symtable's is_referenced(); for a name that is also a comprehension
+  # target symtable merges the uses inside the (inlined) comprehension, so those are decided on the AST
+  ct = all_comp_targets(n)
+  s_read = (set(s.get_name() for s in syms if s.is_referenced()) - ct) | (unshadowed(n)[1] & ct)
+  s_read -= exc
   upper = s_free | all_globals(tab)
   out = []
   for cat, a, s in (('params', a_par, s_par), ('locals', a_loc, s_loc), ('body-bound', a_body, s_body),
@@ -238,6 +325,8 @@ def compare_function(n, tab, parents):
       out.append((cat, 'extra', a - s))
     if s - a:
       out.append((cat, 'missing', s - a))
+  if s_read - a_read:
+    out.append(('read', 'missing', s_read - a_read))
   if lower - a_free:
     out.append(('free', 'missing', lower - a_free))
   if a_free - upper:
@@ -402,8 +491,21 @@ class SGen(object):
     tg = self.r.sample(avail, ngen)
     inner = tuple(comp)
     gens = []
+    # a target named like a variable of the enclosing scope, mentioned in the comprehension's own first
+    # iterable (evaluated outside the comprehension): `[v0 + 1 for v0 in v0]`, `sum(v1 for v1 in range(v1))`
+    shadow = None
+    if self.r.random() < 0.3:
+      cands = [v for v in POOL + GLOB if v not in comp]
+      if cands:
+        shadow = self.r.choice(cands)
+        tg[0] = shadow
     for i, t in enumerate(tg):
       it = self.expr(d + 1, inner, nowalrus=True)
+      if i == 0 and shadow is not None:
+        it = self.r.choice(['%s', '%s.a', 'range(%s)', '%s.items()', '[%s, ' + it + ']', '(%s + ' + it + ')',
+                            it + '[%s]']) % shadow
+      elif i > 0 and shadow is not None and self.r.random() < 0.4:
+        it = 'range(%s)' % shadow           # inside the comprehension: this is the target, not the variable
       tgt = t
       if i == 0 and self.r.random() < 0.2 and len(avail) > ngen:
         t2 = [x for x in avail if x not in tg][0]
@@ -837,6 +939,81 @@ def f(t, c, a):
 ''']
 
 
+EXTRA_PROGRAMS.append(progen.HEADER + '''
+def f(t, c, a):
+  x = a[0]
+  y = 2
+  k = 3
+  w = {1: 2, 3: 4}
+  x = [x + 1 for x in [x, y]]
+  s = sum(k for k in range(k))
+  w = {w: k for w, k in w.items()}
+  y = {y for y in (y, k)}
+  x = [x + v for x in x for v in range(x)]
+  z = [[y for y in x] for x in [x, x]]
+  while c():
+    k = sum([k for k in [k, 1]])
+    if c():
+      s = sum(s for s in (s, k))
+    else:
+      t(len([a for a in a]))
+  def g(p):
+    q = [p for p in range(p % 3)]
+    return sum(p for p in q) + len([k for k in [k]])
+  return (x, y, z, s, w, g(k))
+''')
+
+SHADOW_TOP = ['{v} = sum([{v} + 1 for {v} in [{v}, {o}]])',
+              '{v} = len({{{v} for {v} in ({v}, 2)}}) + {v}',
+              '{v} = sum({{{v}: {o} for {v} in range({v} % 3)}})',
+              '{v} = sum({v} for {v} in range({v} % 4))',
+              '{v} = sum([{v} + u_ for {v} in [{v}, 1] for u_ in range({v} % 3)])',
+              'cw_{n} = [u_ for {v} in [{v}] for u_ in range({v} % 2)]',
+              'cw_{n} = [[{o} for {o} in [{v}]] for {v} in [{v}, {o}]]',
+              'a.append(sum({v} for {v} in [{v}]))']
+SHADOW_NESTED = ['cw_{n} = sum([p + 1 for p in [p, 1]])',
+                 'cw_{n} = sum(p for p in range(p % 3))',
+                 'cw_{n} = {{p: 1 for p in (p, 2)}}',
+                 'cw_{n} = [u_ for p in [p] for u_ in range(p % 2)]']
+
+
+def inject_shadowing(src, rnd):
+  """progen never lets a comprehension rebind a name its own iterable mentions.  Insert 1-3 such statements
+  (list / set / dict comprehension, generator expression, two generators) at random places of f: straight-line
+  code, loop and branch bodies, nested defs (there on the always-bound parameter p, result in a fresh name)."""
+  lines = src.split('\n')
+  start = lines.index('def f(t, c, a):')
+  first = start + 1
+  while first < len(lines) and not lines[first].strip().startswith('z = '):
+    first += 1
+  defs = []
+  cands = []
+  for i in range(first + 1, len(lines)):
+    ln = lines[i]
+    if not ln.strip():
+      continue
+    ind = len(ln) - len(ln.lstrip())
+    while defs and defs[-1] >= ind:
+      defs.pop()
+    if ln.lstrip().split(':')[0].split(' ')[0] not in ('else', 'elif', 'except', 'finally'):
+      cands.append((i, ind, bool(defs)))
+    if ln.lstrip().startswith('def '):
+      defs.append(ind)
+  if not cands:
+    return src
+  picks = sorted(rnd.sample(cands, min(len(cands), rnd.randint(1, 3))), reverse=True)
+  for n, (i, ind, nested) in enumerate(picks):
+    v, o = rnd.sample(progen.VARS, 2)
+    tpl = rnd.choice(SHADOW_NESTED if nested else SHADOW_TOP)
+    lines.insert(i, ' ' * ind + tpl.format(v=v, o=o, n=n))
+  out = '\n'.join(lines)
+  try:
+    compile(out, '<c08>', 'exec')
+  except SyntaxError:
+    return src
+  return out
+
+
 def stmt_key(n):
   return (n.lineno, n.col_offset, type(n).__name__)
 
@@ -884,11 +1061,21 @@ class LoadWrapper(ast.NodeTransformer):
     return node          # the body runs in a callee frame
 
   def _comp(self, node):
-    targets = set()
-    for g in node.generators:
-      targets |= stored_names(g.target)
-    self.skip.append(targets)
-    self.generic_visit(node)
+    # The first iterable is evaluated in the enclosing scope, before the comprehension's own variables
+    # exist: a name in it is the enclosing variable even when the comprehension rebinds that name
+    # (`x = [x + 1 for x in x]` reads x).  Everything else runs in the comprehension's scope.
+    gens = node.generators
+    gens[0].iter = self.visit(gens[0].iter)
+    self.skip.append(comp_targets(node))
+    gens[0].ifs = [self.visit(e) for e in gens[0].ifs]
+    for g in gens[1:]:
+      g.iter = self.visit(g.iter)
+      g.ifs = [self.visit(e) for e in g.ifs]
+    if isinstance(node, ast.DictComp):
+      node.key = self.visit(node.key)
+      node.value = self.visit(node.value)
+    else:
+      node.elt = self.visit(node.elt)
     self.skip.pop()
     return node
 
@@ -1235,12 +1422,24 @@ def main():
   ditems = []
   idx = 0
   nskel = 0
+  irnd = random.Random(a.seed * 7 + 3)
+  ninjected = 0
   for tree in progen.skeletons(K):
-    ditems.append((idx, progen.skeleton_program(tree, avoid), 7, 40))
+    src = progen.skeleton_program(tree, avoid)
+    if idx % 2:
+      src2 = inject_shadowing(src, irnd)
+      ninjected += src2 != src
+      src = src2
+    ditems.append((idx, src, 7, 40))
     idx += 1
     nskel += 1
   for i in range(nrand):
-    ditems.append((idx, progen.random_program(a.seed * 1000003 + i, size=2 + (i % 5), avoid=avoid), 6, 40))
+    src = progen.random_program(a.seed * 1000003 + i, size=2 + (i % 5), avoid=avoid)
+    if i % 2:
+      src2 = inject_shadowing(src, irnd)
+      ninjected += src2 != src
+      src = src2
+    ditems.append((idx, src, 6, 40))
     idx += 1
   for src in EXTRA_PROGRAMS:
     ditems.append((idx, src, 6, 40))
@@ -1305,7 +1504,7 @@ def main():
   harness.emit(dict(
       evaluated=nfunc + instances,
       functions_compared=nfunc, functions_not_matched_in_symtable=nskipped, statement_instances=instances, distinct_nontrivial=len(distinct),
-      static_modules=nstatic, static_redraws=redraws, progen_programs=len(ditems), skeleton_programs=nskel,
+      static_modules=nstatic, static_redraws=redraws, progen_programs=len(ditems), skeleton_programs=nskel, programs_with_shadowing_comprehension=ninjected,
       runs=runs, simple_statements=stmts, simple_statements_exercised=exercised,
       witnesses=witness_state, features=list(features), masks=list(masks), masked=masked, avoid=list(avoid),
       seconds=dict(static=round(t1 - t0, 1), dynamic=round(t2 - t1, 1), total=round(time.time() - t0, 1)),
@@ -1316,7 +1515,8 @@ def main():
             'symtable.symtable(source); non-trivial = a distinct function with >= 3 names in its symbol table. '
             'clause 2: progen skeletons K<=%d + %d random programs x adaptive decision vectors (<= 40 each), every '
             'executed simple statement instance of an instrumented copy: logged Name loads must be in SCOPE.read, '
-            'names whose frame binding changed must be in SCOPE.modified | SCOPE.deleted.' % (K, nrand)),
+            'names whose frame binding changed must be in SCOPE.modified | SCOPE.deleted; every second program gets 1-3 '
+            'inserted statements whose comprehension rebinds a name that its own first iterable reads.' % (K, nrand)),
       samples=[sample_static[-700:], sample_dyn],
       failures=failures))
 
